@@ -35,7 +35,8 @@ RULE = ("K = 2..4 users with unequal Nr/Nt/Ns, raw channel matrix supplied by "
         "against the summed link covariances (plus noise, as the channel object "
         "documents) and their Ns[k] smallest eigenvalues; after a "
         "re-initialisation the path loss is re-applied only half of the time "
-        "(it stays in force otherwise). ")
+        "(it stays in force otherwise). "
+        "In a third of the solver cases the object held another solution (other stream counts and power) before. ")
 ASSUMPTIONS = ["relative tolerance 256 eps n (1 + SINR): the library forms the "
                "denominator by subtracting the own-stream covariance",
                "K >= 2 with generic precoders, so denominators are positive"]
@@ -322,6 +323,16 @@ def case_solver(ctx, rng, idx):
     route = ["set_precoders(F,P)", "P=;set_precoders(F)", "set_precoders(full_F)",
              "P=scalar;set_precoders(F)"][idx % 4]
     solver = IAB.IASolverBaseClass(mu)
+    earlier = None
+    if rng.random() < 0.35:
+        # the solver object held another solution before (other stream counts,
+        # other power): what is installed now replaces it completely
+        earlier = [int(rng.integers(1, min(Nr[k], Nt[k]) + 1)) for k in range(K)]
+        solver.randomizeF(np.array(earlier), float(10.0 ** rng.uniform(-1, 1)))
+        solver.set_receive_filters(W_H=obj_array([rand_c(rng, earlier[k], Nr[k])
+                                                  for k in range(K)]))
+        if route == "set_precoders(full_F)":
+            solver.P = None           # (this route installs scaled precoders, no power)
     if route == "set_precoders(F,P)":
         solver.set_precoders(F=obj_array(Fu), P=P.copy())
         fullF = [Fu[k] * math.sqrt(P[k]) for k in range(K)]
@@ -343,7 +354,7 @@ def case_solver(ctx, rng, idx):
     else:
         solver.set_receive_filters(W=obj_array([herm(w) for w in WH]))
     tag = {"K": K, "Nr": Nr, "Nt": Nt, "Ns": Ns, "P": P, "route": route, "noise": noise,
-           "pathloss": pl is not None}
+           "pathloss": pl is not None, "earlier_solution_Ns": earlier}
     d = lambda **e: (lambda: {**tag, "raw": raw, **e})
     # the filters in force are the ones that were installed, whichever form was used
     okc, gWH = ctx.call("solver-sinr", lambda: (solver.W_H, solver.W), detail=tag)
